@@ -336,6 +336,19 @@ def r_create_replacement(ck: Checker) -> None:
                "the telescoping sum starts at the domain's first element")
 
 
+def r_store_head(ck: Checker) -> None:
+    """the head predicate of a translated min/max rule is remembered as 'the result predicate' only if nothing else defines it"""
+    func = ck.func(f"{CLS}._store_aggregate_head")
+    head = func.params()[2]
+    apps = [c for c in attr_calls(func, "append") if unparse(c.func.value) == "self._minmax_preds"]  # type: ignore[attr-defined]
+    ck.need(len(apps) == 1, "_store_aggregate_head registers the result predicate at one site")
+    site = apps[0]
+    sym = f"{head}.atom.symbol"
+    ck.guard("the head is a plain predicate", func, site, f"is_predicate({head})", "")
+    ck.guard("the head predicate is derived by this rule only", func, site, f"len(self.rule_dependency.get_bodies(Predicate({sym}.name, len({sym}.arguments)))) == 1",
+             "uses of the predicate in sums and objectives are replaced by the chain encoding of THIS aggregate: a fact or a second rule for the predicate contributes values the chain does not contain")
+
+
 RULES = [
     Rule("C12.TABLE.process-rule", P, r_process_table),
     Rule("C12.minmax-agg", P, r_minmax_agg),
@@ -346,4 +359,5 @@ RULES = [
     Rule("C12.G.minimize", PG, r_g_minimize),
     Rule("C12.G.sum-element", PG, r_g_sum),
     Rule("C12.create-replacement", PG, r_create_replacement),
+    Rule("C12.store-head", PG + ("C06",), r_store_head),
 ]
